@@ -66,3 +66,7 @@ Example history_grant_then_revoke :
       HReq {| k_pod := "ztunnel-a"; k_ns := "istio-system"; k_uid := "u1"; k_sa := "ztunnel" |} "spiffe://cluster.local/ns/foo/sa/bar" ]
   = [true; false; false].
 Proof. vm_compute. reflexivity. Qed.
+
+(* every CA error kind is answered with an error status (InvalidArgument or Internal), never OK *)
+Lemma grpc_code_is_error : forall k, grpc_code k = 3%N \/ grpc_code k = 13%N.
+Proof. destruct k; cbn; auto. Qed.
